@@ -1,7 +1,8 @@
 """C04 - reported concrete paths are truthful; path modifiers mean what they say."""
+import copy
 from ..runner import TestSpec, Outcome
 from ..terms import Prim, Part, PathT, show
-from .. import model, build, gen as G
+from .. import model, build, gen as G, spec as SP
 from ..snapshot import exact
 
 ID = "C04"
@@ -23,7 +24,7 @@ MULTIS = [None, "first", "last", "single", "all"]
 
 def gen_case(r):
     d = G.doc(r, 4 if r.coin(60) else 3)
-    p = G.guided_path(r, d, max_len=4, miss=10, mode="typed")
+    p = G.guided_path(r, d, max_len=4, miss=10, mode="typed", meaningful=True)
     return d, p, r.coin()
 
 
@@ -62,6 +63,19 @@ def body(case):
     except Exception as e:
         out.exc("no-raise|base", e)
         return out
+    # the same through Data.get(*bare parts): with and without paths must agree there too
+    if parts and conc:
+        try:
+            bare = [p.v for p in parts]
+            D = build.ns().da.Data
+            bp = D(doc_raw).get(*bare, return_paths=True)
+            bv = D(doc_raw).get(*bare, return_paths=False)
+            if (bp is None and bv is not None) or (bp is not None and exact(bp[0]) != exact(bv)):
+                out.add("values-without-paths", "values-without-paths|Data.get(*parts)", f"Data.get{tuple(bare)!r}: with paths {show(bp,120)}, without {show(bv,120)}")
+            if exact(bp) != exact(gp):
+                out.add("values-without-paths", "entry-points|Data.get(*parts)", f"Data.get{tuple(bare)!r} with paths {show(bp,120)} but path.get_data {show(gp,120)}")
+        except Exception as e:
+            out.exc("no-raise|Data.get(*parts)", e)
     pairs = None
     if not parts or conc:
         pairs = [] if gp is None else [gp]
@@ -86,6 +100,10 @@ def body(case):
         out.add("selection", f"selection|{kind}", f"got {show(pairs,200)} expected {show(sel,200)}")
         return out
 
+    try:
+        part_specs = [SP.part_spec(p) for p in parts] if parts else None
+    except Exception:
+        part_specs = None
     datums = [None] + [d for d in ("dtype", "length", "map_keys", "map_values")
                        if sel and all(model.datum_defined(d, nd) for nd, _ in sel)]
     for datum in datums:
@@ -105,6 +123,25 @@ def body(case):
                     try:
                         obj = build.apply_modifiers(base, pt)
                         got = obj.get_data(src, return_paths=rp)
+                        if (datum or multi) and part_specs is not None and not rp:
+                            # the same modifiers written as a spec key (short forms when the datum
+                            # modifier comes first, full names otherwise) must resolve identically
+                            toks = []
+                            if datum:
+                                toks.append({"length": "len", "dtype": "type"}.get(datum, datum) if order == "dm" else datum)
+                            if multi:
+                                toks.append(multi)
+                            if order == "md":
+                                toks.reverse()
+                            key = ".".join(["path"] + toks)
+                            try:
+                                via = build.ns().d.DataPath.from_spec({key: copy.deepcopy(part_specs)}).get_data(src, return_paths=False)
+                                if exact(via) != exact(got):
+                                    out.add("modifier-meaning", "modifier-meaning|spec-key", f"{key!r}: {show(via,150)} but the API-built path gives {show(got,150)}")
+                            except ValueError:
+                                raise
+                            except Exception as e2:
+                                out.exc("no-raise|spec-key", e2)
                     except ValueError as e:
                         raised = e
                     except Exception as e:
